@@ -435,7 +435,12 @@ pub fn run_c11(ctx: &mut Ctx) -> RunResult {
     if header == 1 || header == 2 {
         ctx.probe("c11.peer_p1_zero_version");
     }
-    let peer_p1 = rh::make_p1_with_header(role.other(), peer_scheme, peer_offset, high_peer, peer_seed, header);
+    // the filling is free too: pseudo-random, all zero, all 0xFF, counting pattern
+    let fill_kind = ctx.ch.weighted("cfg.p1fill", &[5, 2, 1, 1]) as u64;
+    if fill_kind != 0 {
+        ctx.probe("c11.peer_p1_degenerate_fill");
+    }
+    let peer_p1 = rh::make_p1_full(role.other(), peer_scheme, peer_offset, high_peer, peer_seed, header, fill_kind);
     let peer_digest = match rh::verify_p1(&peer_p1, role.other()) {
         Some((_, _, d)) => d,
         None => return Err(Violation::new("HARNESS/ref-handshake", "reference p1 does not verify")),
@@ -503,7 +508,34 @@ pub fn run_c11(ctx: &mut Ctx) -> RunResult {
     ctx.state(state_hash(1, role, peer_scheme, peer_offset));
     // oracle 3: a digest-less packet 1 is echoed exactly
     let mut hs2 = Handshake::new(peer_type(role));
-    let plain = rh::make_plain_p1(peer_seed, ctx.ch.chance("cfg.zero_version", 1, 2));
+    // digest-less packets: plain random ones, and near misses -- a digest-bearing packet with
+    // one byte altered (inside the digest or elsewhere) carries no valid digest either
+    let plain = match ctx.ch.weighted("cfg.plainkind", &[2, 2, 1]) {
+        0 => rh::make_plain_p1(peer_seed, ctx.ch.chance("cfg.zero_version", 1, 2)),
+        k => {
+            let mut p = rh::make_p1_full(role.other(), peer_scheme, peer_offset, high_peer, peer_seed ^ 0x5A5A, header, 0);
+            let pos = rh::digest_pos(&p, peer_scheme);
+            let at = if k == 1 {
+                ctx.probe("c11.near_miss_digest");
+                pos + ctx.ch.draw("fault.arg.pos", 32) as usize
+            } else {
+                // outside the digest and outside both selector groups
+                let mut a = 16 + ctx.ch.draw("fault.arg.pos", (rh::PKT - 16) as u64) as usize;
+                while (a >= pos && a < pos + 32) || (8..12).contains(&a) || (772..776).contains(&a) {
+                    a = (a + 37) % rh::PKT;
+                    if a < 16 {
+                        a += 16;
+                    }
+                }
+                a
+            };
+            p[at] ^= 1 << ctx.ch.draw("fault.arg.bit", 8);
+            if rh::verify_p1(&p, role.other()).is_some() {
+                return Err(Violation::new("HARNESS/ref-handshake", "corrupted reference p1 still verifies"));
+            }
+            p
+        }
+    };
     let mut input2 = vec![3u8];
     input2.extend_from_slice(&plain);
     match hs2.process_bytes(&input2) {
